@@ -14,7 +14,7 @@ if [ -n "$REGEN" ] || [ ! -d probe ]; then
 go build -o gen.bin ./gen
 for V in $VARS; do
   P=core; case $V in f*) P=fed;; esac
-  mkdir -p probe/$V; cp /verif/probes/$P/schema.graphql probe/$V/; [ $P = core ] && cp /verif/probes/core/blob.go.txt probe/$V/blob.go
+  mkdir -p probe/$V; cp /verif/probes/$P/schema.graphql probe/$V/; python3 -c "import json,sys; [open(\"probe/$V/extra.graphql\",\"w\").write(v[\"extra_schema\"]) for v in json.load(open(\"/verif/probes/$P/variants.json\")) if v[\"name\"]==\"$V\" and v.get(\"extra_schema\")]"; [ $P = core ] && cp /verif/probes/core/blob.go.txt probe/$V/blob.go
   python3 /verif/tools/mkconfig.py $P $V > gqlgen.$V.yml
   ./gen.bin gqlgen.$V.yml probe/$V/stub.go & 
 done; wait
